@@ -11,7 +11,7 @@ From V.c05 Require Import C05Model C05FragModel C05CodecModel.
 From V.c12 Require C12Model.
 From V.c02 Require Import C02AggModel C02AggSizeProofs C02AggOptProofs C02AggFragProofs C02AggFileProofs
   C02AggPureProofs C02AggC12Proofs C02AggC05Proofs C02AggScanProofs C02AggSencModel C02AggSencProofs C02AggExamples
-  C02AggCapModel C02AggCapProofs C02AggSencDecProofs C02AggProgProofs.
+  C02AggCapModel C02AggCapProofs C02AggSencDecProofs C02AggProgProofs C02AggWfModel C02AggWfProofs.
 
 (* ---- bytes written = Size() afterwards = sum of the box lengths; every top-level box header is right;
         Size() beforehand is the same when trun optimisation is off; well-formedness is kept *)
@@ -428,3 +428,12 @@ Example C02_ex_capacity :
   exists fr' boxes, afrag_encode_sw 135 (ex_frag true) = (fr', Ok (boxes, 0)) /\
                     afrag_encode_sw (135 + 64) (ex_frag true) = (fr', Ok (boxes, 64)).
 Proof. eexists; eexists. split; vm_compute; reflexivity. Qed.
+
+(* ---- the hypotheses of the theorems above are evaluated on the real structures of every run: the predicates the extracted
+        model computes on each correspondence case (C02AggWfModel.v, a file without proofs; the counts are in the evidence:
+        coverage.aggregate_correspondence.theorem_hypotheses_evaluated) ARE afrag_wf / aseg_wf / obs_wf / afile_wf / senc_ok *)
+Theorem C02_wf_evaluated :
+  (forall fr, x_afrag_wf fr = afrag_wf fr) /\ (forall s, x_aseg_wf s = aseg_wf s) /\ (forall i, x_obs_wf i = obs_wf i) /\
+  (forall f, x_afile_wf f = afile_wf f) /\ (forall s, x_senc_ok s = senc_ok s).
+Proof. exact x_wf_eq. Qed.
+Print Assumptions C02_wf_evaluated.
